@@ -1,24 +1,3 @@
-// ---------- prelude/ring_spec: Z[X]/(X^n+1) on coefficient sequences ----------
-
-// coefficient j of X^p * a in Z[X]/(X^n+1), n = a.len()
-pub open spec fn rot_coeff(a: Seq<i64>, p: int, j: int) -> int {
-    let n = a.len() as int;
-    let k = (j - p) % (2 * n);
-    if k < n { a[k] as int } else { -(a[k - n] as int) }
-}
-// X^i -> X^{i*p}: where coefficient i of `a` lands in res, and with which sign
-pub open spec fn aut_ok(res: Seq<i64>, a: Seq<i64>, p: int, i: int) -> bool {
-    let n = a.len() as int; let k = (i * p) % (2 * n);
-    if k < n { res[k] == a[i] } else { res[k - n] as int == -(a[i] as int) }
-}
-// ring-degree switch: fold (keep every (n_in/n_out)-th coefficient) or embed X -> X^(n_out/n_in)
-pub open spec fn switch_spec(a: Seq<i64>, n_out: int, i: int) -> i64 {
-    let n_in = a.len() as int;
-    if n_in == n_out { a[i] }
-    else if n_in > n_out { a[i * (n_in / n_out)] }
-    else { if i % (n_out / n_in) == 0 { a[i / (n_out / n_in)] } else { 0 } }
-}
-
 // Leaf bit facts, discharged by Kani on the same expressions for every power of two m <= 2^29 and every p / x
 // (cross-engine obligation chain, DESIGN.md §2.4): kx:poulpy-cpu-ref:c09_mask_mod_i64, c09_mask_mod_usize.
 #[verifier::external_body]
